@@ -10,7 +10,7 @@
    property names: well-formed graph, every named module exists, subjects and
    objects pairwise unrelated in the hierarchy, both lists non-empty. *)
 From Coq Require Import List Bool NArith.
-From PTA Require Import Names Graph Search Worklist Rule SpecRule SpecLines NamesProofs SearchProofs RuleProofs GraphProofs WorklistProofs.
+From PTA Require Import Names Graph Search Worklist Rule SpecRule SpecLines NamesProofs SearchProofs RuleProofs GraphProofs WorklistProofs AlgebraProofs AliasProofs.
 Import ListNotations.
 
 Theorem C01_verdict :
@@ -33,6 +33,20 @@ Theorem C01_total :
   is_err (verdict ceqb rmatch g (mk_cfg v imp exc Ss Os)) = false.
 Proof. exact @strict_total. Qed.
 Print Assumptions C01_total.
+
+(* the two aliases: 'Ss should not import anything' / 'Ss should not be imported by anything' with pairwise unrelated
+   existing subjects pass exactly when the documented semantics of 'should not ... except' hold with the subjects
+   themselves as the objects - no import leaves (enters) a subject for (from) something outside every subject -
+   and are never an error.  (C01_verdict does not cover this shape: a subject is related to itself as an object.) *)
+Theorem C01_alias_verdict :
+  forall (comp : Type) (ceqb : comp -> comp -> bool),
+  (forall x y, reflect (x = y) (ceqb x y)) ->
+  forall (rmatch : N -> list comp -> bool) g imp (ss : list (@filt comp)),
+  wf_graph g -> (forall f, In f ss -> exists_f ceqb g f = true) -> pw_unrel ceqb (map fid ss) -> ss <> [] ->
+  (verdict ceqb rmatch g (any_cfg imp (map (@to_u comp) ss)) = Pass <-> spec_holds ceqb g ShouldNot imp true ss ss = true) /\
+  is_err (verdict ceqb rmatch g (any_cfg imp (map (@to_u comp) ss))) = false.
+Proof. exact @alias_verdict. Qed.
+Print Assumptions C01_alias_verdict.
 
 (* the three public graph queries are the documented comprehensions *)
 Theorem C01_query_between :
